@@ -288,7 +288,7 @@ def k_write(sim, sock, data, what='write'):
             raise BrokenPipeError(EPIPE, 'Broken pipe')
         if sock.shut_wr:
             raise BrokenPipeError(EPIPE, 'Broken pipe')
-        if sock.err is not None:
+        if tcp and sock.err is not None:
             e = sock.err
             sock.err = None
             sim.ev('write-err', t.name, sock.label, e)
